@@ -416,7 +416,8 @@ void genC12(uint64_t seed, int tier, Scenario& sc) {
     // 4-man classes: sampled
     uint64_t j = seed - n3;
     int nSel = tier > 0 ? (int)k4.size() : 2;
-    std::string key = tier > 0 ? k4[j % k4.size()] : (j % 2 ? "KQvKR" : "KRBvK");
+    static const char* quick4[] = {"KQvKR", "KRBvK", "KRRvK"}; // two different men each side, three on one side, two equal men
+    std::string key = tier > 0 ? k4[j % k4.size()] : quick4[j % 3];
     (void)nSel;
     sc.setS("key", key);
     sc.set("flip", r.chance(0.5) ? 1 : 0);
